@@ -15,7 +15,7 @@ def _nontrivial(t):
 def run(tier):
     rnd = random.Random(common.seed() + 9)
     n = 140 if tier == 'quick' else 3000
-    jobs = ec.random_jobs(rnd, n, label='sub', gen_kw=dict(p_sub=0.5, p_items=0.3, p_cmd=0.03))
+    jobs = ec.random_jobs(rnd, n, label='sub', gen_kw=dict(partial_joins=False, p_sub=0.5, p_items=0.3, p_cmd=0.03))
     for k, j in enumerate(jobs):
         if k % 3 == 0:
             j['prog'].flags['ns'] = 'ns1'
